@@ -120,7 +120,7 @@ func (s *sim) checkDoubleSignReport(n *node, data []module.DoubleSignData) {
 // monitorLock: white-box half of the lock-rule monitor (see lockrule.go). The
 // lock a correct validator holds on block X since round r may only be given up
 // (released, or replaced by a lock on another block) within the same height if
-// some round r'' > r has +2/3 prevotes for a value other than X on the wire.
+// some round r” > r has +2/3 prevotes for a value other than X on the wire.
 func (s *sim) monitorLock(n *node, st *consensus.SimState) {
 	prev := n.lock
 	cur := lockObs{inc: n.inc.n, h: st.Height, r: st.LockedRound, id: hex.EncodeToString(st.LockedID)}
